@@ -9,6 +9,7 @@ var checks = map[string]func(tier string) []*Pass{}
 // ---- configuration grids
 
 type gridSpec struct {
+	P3                     []int
 	P1, P2, P4, P5, SZ, TH []int
 	SP                     [][2]float64
 	Virt                   []bool
@@ -35,6 +36,9 @@ func (g gridSpec) list() []Cfg {
 	if g.Virt == nil {
 		g.Virt = []bool{false}
 	}
+	if g.P3 == nil {
+		g.P3 = []int{0}
+	}
 	var out []Cfg
 	for _, sz := range g.SZ {
 		for _, sp := range g.SP {
@@ -44,7 +48,9 @@ func (g gridSpec) list() []Cfg {
 						for _, p2 := range g.P2 {
 							for _, p4 := range g.P4 {
 								for _, p5 := range g.P5 {
-									out = append(out, Cfg{P1: p1, P2: p2, P4: p4, P5: p5, SZ: sz, NS: sp[0], LS: sp[1], TH: th, Virt: vt})
+									for _, p3 := range g.P3 {
+										out = append(out, Cfg{P1: p1, P2: p2, P3: p3, P4: p4, P5: p5, SZ: sz, NS: sp[0], LS: sp[1], TH: th, Virt: vt})
+									}
 								}
 							}
 						}
